@@ -156,7 +156,8 @@ def check(prop, tier, seed):
     covers = [r for r in results if r["kind"] == "cover"]
     canaries = [r for r in results if r["kind"] == "canary"]
     broken = []
-    if not obligations:
+    bounded_only = bool(getattr(cset.pymod, "BOUNDED_ONLY", False)) and not cset.functions and not cset.lemmas
+    if not obligations and not bounded_only:
         broken.append("zero obligations generated")
     for r in covers:
         if r["status"] == "vacuous":
@@ -202,6 +203,8 @@ def check(prop, tier, seed):
     twin = run_twin(prop, tier, seed, only)
     if twin.get("error"):
         broken.append("twin: " + twin["error"])
+    elif not twin.get("cases") or (bounded_only and not twin.get("nontrivial")):
+        broken.append("bounded stand-in explored zero %s cases" % ("non-trivial" if twin.get("cases") else ""))
     known = load_known(prop)
     violations, known_seen = [], []
     lines = []
@@ -290,6 +293,15 @@ def check(prop, tier, seed):
     if coverage["distinct_nontrivial"] == 0:
         del coverage["distinct_nontrivial"]
         del coverage["evaluations"]
+    if bounded_only:
+        # nothing is proved for this property: the evidence is that of a bounded exploration
+        level = "exploration"
+        for k in ("obligations", "discharged", "checker_cmd"):
+            coverage.pop(k, None)
+        coverage["evaluations"] = twin.get("cases", 0)
+        coverage["distinct_nontrivial"] = twin.get("nontrivial", 0)
+        coverage["samples"] = twin.get("samples", [])[:3] or samples
+        coverage["exhaustive"] = bool(twin.get("exhaustive", False))
     if explanation:
         coverage["explanation"] = explanation
     ev = {
